@@ -55,8 +55,13 @@ No counterexample to the property was found: neither by proof nor by the ~900 ev
 `Sdmmc.Lemmas.VolExampleTests` (FAT16, FAT32, 2 blocks per cluster; volume full, FAT16 root full, directory
 growth, truncation, "."/".." names, label entries, bad handles).
 
-NOT PROVED: `fsck_ok` (that `Spec.Fs.fsck … .problems = []` follows from `VolInv`) — the executable counterpart
-proved here instead is `Lemmas.VolCheck.checkVolInv_sound` (a decidable check implying `VolInv`).
+THE INDEPENDENT CHECKER (`fsck_ok`, vocabulary `Sdmmc.Spec.VolumeFsck`, proofs `Lemmas.VolFsck` … `VolFsck9`): on a state satisfying `VolInv`, the structure
+checker of `Sdmmc.Spec.Fs` (`fsck`, run with the pending state of the open files and the size clause on) reports
+no problem — under two explicit hypotheses that cannot be dropped (evaluated counterexamples in `Lemmas.VolFsck9`,
+`VolFsck10`): (H1) `NoOne`: no FAT32 entry of a data cluster is `1` — the crate's `next_cluster` reads the FAT32 entry
+`1` as END OF CHAIN (`f = 1 ∨ f ≥ 0x0FFFFFF8`, /repo/src/fat/volume.rs), the checker (and the FAT specification)
+treat `1` as reserved; the crate never writes `1`; (H2) `DepthOK`: no directory lies deeper than 63 levels — the
+checker's nesting fuel.  Conversely `check_sound`: a decidable test implying `VolInv`.
 -/
 import Sdmmc.Lemmas.VolApiOpen
 import Sdmmc.Lemmas.VolApiWrite
@@ -65,6 +70,7 @@ import Sdmmc.Lemmas.VolApiMount
 import Sdmmc.Lemmas.VolCor
 import Sdmmc.Lemmas.VolExample
 import Sdmmc.Props.C06
+import Sdmmc.Lemmas.VolFsck9
 
 namespace Sdmmc.Props.C03Inv
 open Sdmmc.Model Sdmmc.Model.Fat Sdmmc.Spec.Volume
@@ -596,6 +602,24 @@ theorem lookup_equals_listing_root {s : Mgr} {gh : Ghost} (hI : VolInv s gh) (hf
   Props.C06.find_blocks_iff_listed gh.vol.fatType s.dev.disk name _ _ hname
     ((clean_tail_c06 hI (Lemmas.VolTree.zero_mem_dirIds _)).1 hf)
 
+/-! ### The independent structure checker agrees -/
+
+/-- **`fsck` finds nothing.**  `g` is the checker's geometry of the volume record (`GeomOf`: the same numbers, block
+numbers absolute), `pendingOf s` the pending (cluster, size) of the open files at their slots.  (H1) `NoOne`: no FAT32
+entry of a data cluster is `1` (the crate reads `1` as end of chain, the checker as reserved; the crate never writes
+it); (H2) `DepthOK`: no directory deeper than 63 levels (the checker's nesting fuel).  Neither can be dropped:
+`Example.fsck_needs_H1`, `Lemmas.VolFsck.h2_needed` (module `VolFsck10`). -/
+theorem fsck_ok (s : Mgr) (gh : Ghost) (hI : VolInv s gh) (g : Spec.Fs.Geom) (hg : GeomOf gh.vol g)
+    (h1 : NoOne gh.vol s.dev.disk) (h2 : DepthOK gh.dirs) :
+    (Spec.Fs.fsck g s.dev.disk (pendingOf s) true).problems = [] :=
+  Lemmas.VolFsck.fsck_ok s gh hI g hg h1 h2
+
+/-- (H2) holds whenever the volume has at most 63 sub-directories; (H1) and (H2) have decidable forms
+(`Lemmas.VolFsck.noOneB_sound`, `depthOKB_sound`). -/
+theorem depth_ok_of_few_dirs {s : Mgr} {gh : Ghost} (hI : VolInv s gh) (hl : gh.dirs.length ≤ 63) :
+    DepthOK gh.dirs :=
+  Lemmas.VolFsck.depthOK_of_length hI hl
+
 /-! ### The executable counterpart -/
 
 /-- The invariant can be CHECKED by evaluation: a decidable test implying it. -/
@@ -676,6 +700,25 @@ theorem ops2_covered : CoveredAllRun vol16 mgr1 ops2 := by
 
 theorem ops2_invariant : ∃ gh', VolInv (run mgr1 ops2).1 gh' ∧ SameGeom vol16 gh'.vol :=
   api_history_invariant vol16 ops2 mgr1 gh1 mgr1_inv (SameGeom.refl vol16) ops2_covered
+
+/-- `fsck_ok` applied: the independent checker finds nothing on the three example media. -/
+theorem fsck_examples :
+    (Spec.Fs.fsck (geomOfVol vol16) mgr0.dev.disk (pendingOf mgr0) true).problems = [] ∧
+    (Spec.Fs.fsck (geomOfVol vol16) mgr1.dev.disk (pendingOf mgr1) true).problems = [] ∧
+    (Spec.Fs.fsck (geomOfVol vol32) mgr32.dev.disk (pendingOf mgr32) true).problems = [] :=
+  ⟨Lemmas.VolFsck.fsck_mgr0, Lemmas.VolFsck.fsck_mgr1, Lemmas.VolFsck.fsck_mgr32⟩
+
+/-- (H1) cannot be dropped: the FAT32 medium with the last cluster of `F.TXT` carrying the FAT entry `1` satisfies the
+invariant (the crate reads `1` as end of chain), and the checker complains. -/
+theorem fsck_needs_H1 : VolInv Lemmas.VolFsck.mgr32One gh32 ∧ ¬ NoOne gh32.vol Lemmas.VolFsck.mgr32One.dev.disk ∧
+    (Spec.Fs.fsck (geomOfVol vol32) Lemmas.VolFsck.mgr32One.dev.disk
+      (pendingOf Lemmas.VolFsck.mgr32One) true).problems ≠ [] := by
+  refine ⟨Lemmas.VolFsck.mgr32One_inv, Lemmas.VolFsck.h1_fails, ?_⟩
+  have := Lemmas.VolFsck.h1_needed
+  intro h
+  rw [h] at this
+  revert this
+  simp
 
 end Example
 
